@@ -759,7 +759,7 @@ func metaNonce(t *esdt.ESDigitalToken) interface{} {
 
 func usedName(tok string) bool {
 	switch tok {
-	case "F", "F\x01", "S", "S\x01", "U", "R":
+	case tF, tF1, tS, tS1, tU, tR:
 		return true
 	}
 	return false
